@@ -30,7 +30,7 @@ def legs(tier):
 
 
 def bounds(tier):
-    return {"max_links": 2 if tier == "quick" else 3, "max_positions": 12, "running_depth": 4}
+    return {"max_links": 2 if tier == "quick" else 4, "max_positions": 12, "running_depth": 4}
 
 
 def frame_eq(a, b):
